@@ -103,6 +103,9 @@ func (m *Machine) runBlocks(fr *Frame, start *ssa.BasicBlock) Value {
 	b := start
 	for {
 		var next *ssa.BasicBlock
+		if traceFn != "" && strings.Contains(fr.fn.String(), traceFn) {
+			fmt.Fprintf(os.Stderr, "  BLOCK %s #%d %s (trace len %d)\n", fr.fn.Name(), b.Index, b.Comment, len(m.trace))
+		}
 		// loop bound accounting on back edges: count entries of each block per frame-less key
 		for _, ins := range b.Instrs {
 			m.steps++
@@ -1382,6 +1385,8 @@ func (m *Machine) appendOp(c *ssa.CallCommon, args []Value) Value {
 	}
 	return &SliceVal{cell: nc, len: n, cap: ncap}
 }
+
+var traceFn = os.Getenv("GOSYM_BLOCKS")
 
 func debugf(format string, a ...interface{}) {
 	if os.Getenv("GOSYM_DEBUG") != "" {
